@@ -139,13 +139,18 @@ def c06(tier):
              + mk("hostile", 200 if q else 8000, s + 3, "default", lane="msan", n_ops=40)
              + mk("bus", 60 if q else 2000, s + 4, "default", lane="msan", n_ops=50))
     res = run_cases(cases)
+    from . import fuzzlane
+    res += fuzzlane.run(tier, s)
     return report("C06", "exploration", res,
                   "hostile byte streams on all endpoints (raw, unix socket, HTTP/WebSocket): near-valid JSON-RPC with hostile member shapes/names/lengths/"
                   "duplicates, length-prefix games, mutated HTTP upgrades, the WebSocket opcode/FIN/RSV/MASK/length grid, byte-level mutations of valid sessions; "
                   "random segmentation, epoll batching and read-buffer scribbling; oracle: AddressSanitizer+UBSan+LeakSanitizer silent (gcc lane) and MemorySanitizer silent (clang lane, whole daemon instrumented), daemon stays in its loop, "
-                  "and two witness connections keep being served correctly; distinct = input-shape signatures",
+                  "and two witness connections keep being served correctly; plus a coverage-guided lane (libFuzzer, clang ASan+UBSan+LSan): one input = one whole "
+                  "daemon lifetime scripted on the simulated kernel (connects, raw bytes, framed messages, batches, FIN/RST, write budgets, clock steps), ended "
+                  "through the loop's error exit with heap / peer / descriptor / hygiene invariants asserted (8 x 8 000 executions in quick, 16 x 400 000 in "
+                  "thorough, bounded by execution count); distinct = input-shape signatures and coverage buckets",
                   t0, tier, SIM_ASSUME + ["gcc ASan/UBSan see only heap/stack/global red zones and the UB kinds they instrument"],
-                  min_events={"frames_generated": 20000, "http_status_400": 100, "ws_close_1002": 100})
+                  min_events={"frames_generated": 20000, "http_status_400": 100, "ws_close_1002": 100, "fuzz_executions": 50000})
 
 
 def _unit(pid, modname):
